@@ -36,6 +36,24 @@ func RunDSL() error {
 			// Let's cross that bridge once we get there
 			return fmt.Errorf("too many generated roots, infinite loop?")
 		}
+		// The DSLs that just ran may have registered new roots: pick them up
+		// so that they get executed (last) and go through the other phases.
+		all, err := Context.Roots()
+		if err != nil {
+			return err
+		}
+		for _, r := range all {
+			known := false
+			for _, o := range roots {
+				if o.EvalName() == r.EvalName() {
+					known = true
+					break
+				}
+			}
+			if !known {
+				roots = append(roots, r)
+			}
+		}
 	}
 	if Context.Errors != nil {
 		return Context.Errors
